@@ -380,6 +380,23 @@ fn run_mode(job: &Job, mode: &str) -> ModeResult {
 /// `vc-front c11-worker`: serve jobs from stdin until EOF.
 pub fn worker_main() -> i32 {
     install_hook();
+    // never outlive the check: when the parent is gone (it exited on a verdict while this
+    // worker was busy) the process is re-parented; notice that and stop
+    fn ppid() -> Option<u32> {
+        let t = std::fs::read_to_string("/proc/self/stat").ok()?;
+        let k = t.rfind(')')?;
+        t[k + 1..].split_whitespace().nth(1)?.parse().ok()
+    }
+    if let Some(p0) = ppid() {
+        std::thread::spawn(move || {
+            loop {
+                std::thread::sleep(std::time::Duration::from_secs(1));
+                if ppid() != Some(p0) {
+                    std::process::exit(0);
+                }
+            }
+        });
+    }
     let stdin = std::io::stdin();
     let mut line = String::new();
     loop {
